@@ -435,7 +435,7 @@ def main():
             refused.append(name)
             continue
         L += [f'/-- {doc} -/', f'@[simp] def {name} (a b : Nat) (q : Rat) (n : Nat) : List Instr := [{", ".join(ins)}]',
-              f'def {name}Result (a b n : Nat) : Nat := {res}', '']
+              f'@[simp] def {name}Result (a b n : Nat) : Nat := {res}', '']
         writes_operand = any(i.split()[0] in ('.scale', '.update', '.addOffset') and not i.split()[1].lstrip('(').startswith('n') for i in ins)
         (inpl if ip and writes_operand else fresh).append(name)
     L += ['/-- the body of the inner loop of `QuadraticModel.__mul__` (the rest of the product block is literally the skeleton of',
@@ -448,6 +448,32 @@ def main():
           'def comparisons : List (String × String × String × String) :=',
           '  [' + ', '.join(f'("{c}", "{n}", "{k}", "{f}")' for c, n, k, f in comparison_rows()) + ']', '']
     nonin = [n for n, _d, ins, _r, ip in ps if ins is not None and not ip]
+    have = {n for n, _d, ins, _r, _ip in ps if ins is not None}
+    mk = ('bqm', 'qm', 'view')
+
+    def group(names):
+        names = [n for n in names if n in have]
+        return '  [' + ',\n   '.join(f'({n} 0 1 q 2, {n}Result 0 1 2)' for n in names) + ']'
+
+    def mm(op):
+        return [f'{l}_{i}{op}_{r}{suf}' for l in mk for r in mk for i in ('', 'i')
+                for suf in (('_same', '_differ') if l == r == 'bqm' else ('',))]
+    groups = [('addForms', 'the SUM `x + y` of two model operands (every class pair, `+` and `+=`)', mm('add')),
+              ('subForms', 'the DIFFERENCE `x - y` of two model operands (every class pair, `-` and `-=`)', mm('sub')),
+              ('addNumForms', '`x + q` (`model + q`, `q + model`, `model += q`)',
+               [f'{l}_{i}add_num' for l in mk for i in ('', 'i')] + [f'num_add_{l}' for l in mk]),
+              ('subNumForms', '`x - q` (`model - q`, `model -= q`)', [f'{l}_{i}sub_num' for l in mk for i in ('', 'i')]),
+              ('rsubNumForms', '`q - x` (`q - model`)', [f'num_sub_{l}' for l in mk]),
+              ('scaleForms', '`q * x` (`model * q`, `q * model`, `model *= q`)',
+               [f'{l}_{i}mul_num' for l in mk for i in ('', 'i')] + [f'num_mul_{l}' for l in mk]),
+              ('negForms', '`-x`', [f'{l}_neg' for l in mk]),
+              ('divForms', '`x / q` (`model / q`, `model /= q`)', [f'{l}_{i}truediv_num' for l in mk for i in ('', 'i')])]
+    for gname, doc, names in groups:
+        if not [n for n in names if n in have]:
+            die(f'group {gname} is empty')
+        L += [f'/-- the forms that are to compute {doc}, instantiated for a two-object store (operands at 0 and 1, first free', 
+              '    position 2), each with the position of the object it returns -/',
+              f'def {gname} (q : Rat) : List (List Instr × Nat) :=', group(names), '']
     L += ['/-- the bodies of all NON-in-place operator forms -/',
           'def nonInplace (a b : Nat) (q : Rat) (n : Nat) : List (List Instr) :=',
           '  [' + ',\n   '.join(f'{n} a b q n' for n in nonin) + ']', '',
